@@ -10,5 +10,45 @@ TEXT = {
   "note": NOTE,
   "technique": "Coq proof (div/mod-128 characterisation, lia) + Go-vs-extracted-model correspondence + exhaustive oracle",
  },
+ "C04": {
+  "level": "Theorems C04_unmarshal (for every packet type, receiver state and byte string UnmarshalBinary does not panic - Panic being what every "
+           "out-of-range index/slice, negative make and nil will produce in the model), C04_read_total (ReadPacket over any reader script returns "
+           "exactly one of packet/error) and C04_program (any IR decoder passing the static will-allocation check is panic-free). Model tied to the "
+           "Go decoders by correspondence on hostile frames with PANIC as observable; direct oracle on the implementation.",
+  "note": NOTE,
+  "technique": "Coq proof (invariant of the guarded reader pushed through every IR constructor) + correspondence + panic oracle",
+ },
+ "C05": {
+  "level": "Theorems C05_terminates / C05_read_terminates: all decoder loops run in the model on fuel length(data)+1 (io.ReadFull: script size+1) "
+           "and the fuel is never exhausted, for every packet type, receiver state, byte string and reader script. Work/allocation proportionality "
+           "beyond the iteration bound is checked on the implementation (watchdog, list-length and allocation oracles), not proved.",
+  "note": NOTE + " Wall-clock time and the Go allocator are not modelled.",
+  "technique": "Coq proof of fuel sufficiency (measure len(data)-offset) + correspondence with TIMEOUT observable + allocation/list-length oracle",
+ },
+ "C06": {
+  "level": "Theorems C06_exact and C06_sequence: for every frame, every continuation and every legal delivery, ReadPacket obtains exactly the frame's "
+           "bytes, its result is decode_frame of the frame alone, and the reader is left at the next byte; successive calls return successive frames.",
+  "note": NOTE,
+  "technique": "Coq proof over scripted readers (io.ReadFull model) + correspondence with consumed-count and Read-size trace + sequence oracle",
+ },
+ "C07": {
+  "level": "Theorem C07_fragmentation: any two legal deliveries (any chunking, zero-length reads, error with or after the last byte) of the same frame "
+           "give the same packet/rejection. Proved for all scripts, not enumerated; the oracle enumerates all compositions of short frames on the implementation.",
+  "note": NOTE,
+  "technique": "Coq proof (read_full returns the first n delivered bytes for every script) + correspondence + exhaustive-composition oracle",
+ },
+ "C08": {
+  "level": "Theorems C08_exactly_one, C08_read_full_short, C08_cut_at_boundary, C08_cut_in_body, C08_error_identity: a reader that ends or fails (error with the last "
+           "bytes or on the next call) before the frame is complete yields nil packet and the reader's error (io.EOF -> ErrUnexpectedEOF after a partial read). "
+           "The cut inside the remaining-length field is not yet proved in Coq (covered by correspondence and the oracle over every cut offset).",
+  "note": NOTE,
+  "technique": "Coq proof (short reads of io.ReadFull) + correspondence on faulting scripts + every-cut-offset oracle",
+ },
+ "C16": {
+  "level": "Theorems C16_dispatch (accepted frame => type = upper nibble; type 0 carries the body; types 1-15 keep the first byte - no decoder skeleton writes the "
+           "fixed field, by a static check proved sound - and re-encoding starts with that byte), C16_publish_flags (all 256 bytes, lifted from a finite sweep), C16_all_accepted.",
+  "note": NOTE,
+  "technique": "Coq proof (field-preservation static analysis of the IR + 256-value sweep lifted by forallb_forall) + correspondence + 256-first-byte oracle",
+ },
 }
 NOT_APPLICABLE = {}
